@@ -322,6 +322,17 @@ func genRules(r *rng.R, malformed bool) []ruleJ {
 			for q := 0; q < nv; q++ {
 				c.Values = append(c.Values, vs[r.Intn(len(vs))])
 			}
+			// the empty string as a listed value ("zone=" split, hand-written
+			// JSON): a store without the label reads as "", and must still
+			// never match `in` and always match `notIn`.
+			switch r.Pick(84, 8, 5, 3) {
+			case 1:
+				c.Values = append(c.Values, "")
+			case 2:
+				c.Values = append([]string{""}, c.Values...)
+			case 3:
+				c.Values = []string{""}
+			}
 			if c.Op == "exists" || c.Op == "notExists" {
 				if r.Pct(70) {
 					c.Values = nil
@@ -339,6 +350,11 @@ func genRules(r *rng.R, malformed bool) []ruleJ {
 		ru.Locs = append(ru.Locs, keysLoc[:nl]...)
 		if nl > 0 && r.Pct(6) {
 			ru.Locs[0] = "Zone"
+		}
+		// location labels that are not a prefix of zone/rack/host: two rules of
+		// one list then give the same pair of stores different isolation levels
+		if r.Pct(15) {
+			ru.Locs = [][]string{{"host"}, {"rack", "host"}, {"host", "zone"}, {"rack"}, {"zone", "host"}}[r.Intn(5)]
 		}
 		out = append(out, ru)
 	}
@@ -638,6 +654,46 @@ func run(R *res.Result, c *caseJ) outcome {
 }
 
 // ---------- probes outside the modelled domain: what the real code does there (recorded as notes) ----------
+// fixedCases are run on every invocation: the empty string listed as a value of
+// an in / notIn constraint, with stores that lack the label (they read as "").
+// Documented: a missing label never matches `in` and always matches `notIn`.
+func fixedCases() []caseJ {
+	stores := []storeJ{
+		{ID: 1, Labels: [][2]string{{"zone", "z1"}, {"host", "h1"}}},
+		{ID: 2, Labels: [][2]string{{"host", "h2"}}},
+		{ID: 3, Labels: [][2]string{{"zone", "z2"}, {"host", "h3"}}},
+		{ID: 4, Labels: nil},
+	}
+	reg := regionJ{Leader: 1, Peers: []peerJ{{ID: 1, Store: 1}, {ID: 2, Store: 2}, {ID: 3, Store: 3}, {ID: 4, Store: 4}}}
+	var out []caseJ
+	for _, op := range []string{"in", "notIn"} {
+		for _, vals := range [][]string{{""}, {"z1", ""}, {"", "z2"}} {
+			out = append(out, caseJ{Stream: "fixed", Stores: stores, A: reg, B: reg,
+				Rules: []ruleJ{{Role: "voter", Count: 3, Cons: []consJ{{Key: "zone", Op: op, Values: vals}}, Locs: []string{"zone"}}}})
+		}
+	}
+	// two rules with different location labels over the same peers (voters by
+	// zone, learners by host): each pair of stores is scored once per rule
+	st2 := []storeJ{
+		{ID: 1, Labels: [][2]string{{"zone", "z1"}, {"host", "h1"}}},
+		{ID: 2, Labels: [][2]string{{"zone", "z1"}, {"host", "h1"}}},
+		{ID: 3, Labels: [][2]string{{"zone", "z1"}, {"host", "h2"}}},
+		{ID: 4, Labels: [][2]string{{"zone", "z1"}, {"host", "h3"}}},
+		{ID: 5, Labels: [][2]string{{"zone", "z2"}, {"host", "h4"}}},
+		{ID: 6, Labels: [][2]string{{"zone", "z3"}, {"host", "h5"}}},
+	}
+	reg2 := regionJ{Leader: 4, Peers: []peerJ{{ID: 4, Store: 4}, {ID: 5, Store: 5}, {ID: 6, Store: 6},
+		{ID: 1, Store: 1, Role: 1}, {ID: 2, Store: 2, Role: 1}, {ID: 3, Store: 3, Role: 1}}}
+	out = append(out, caseJ{Stream: "fixed", Stores: st2, A: reg2, B: reg2, Rules: []ruleJ{
+		{Role: "voter", Count: 3, Locs: []string{"zone"}},
+		{Role: "learner", Count: 2, Locs: []string{"host"}}}})
+	out = append(out, caseJ{Stream: "fixed", Stores: st2, A: reg2, B: reg2, Rules: []ruleJ{
+		{Role: "voter", Count: 2, Locs: []string{"zone"}},
+		{Role: "voter", Count: 2, Locs: []string{"host"}},
+		{Role: "learner", Count: 2, Locs: []string{"zone", "host"}}}})
+	return out
+}
+
 func probes(R *res.Result) {
 	stores := []storeJ{{ID: 1, Labels: [][2]string{{"zone", "z1"}}}, {ID: 2, Labels: [][2]string{{"zone", "z2"}}}}
 	reg := regionJ{Leader: 1, Peers: []peerJ{{ID: 1, Store: 1}, {ID: 2, Store: 2}}}
@@ -795,6 +851,9 @@ func main() {
 			fmt.Println(o.coq)
 		}
 	} else {
+		for _, c := range fixedCases() {
+			emit(c)
+		}
 		master := rng.New(*seed)
 		for k := 0; k < *n; k++ {
 			emit(genCase(master.Fork(uint64(k))))
